@@ -63,9 +63,15 @@ LEAVES = {
 }
 
 
+# optional hook: callable role -> dict of extra QuicConfiguration arguments (explicit arguments win); used by C20 to switch logging on
+EXTRA = None
+
+
 def server_config(leaf="ed25519", **kw):
     from aioquic.quic.configuration import QuicConfiguration
 
+    if EXTRA is not None:
+        kw = {**EXTRA("server"), **kw}
     cfg = QuicConfiguration(is_client=False, **kw)
     cert, key, chain = LEAVES[leaf]
     cfg.certificate = load_cert(cert)[0]
@@ -77,6 +83,8 @@ def server_config(leaf="ed25519", **kw):
 def client_config(server_name="localhost", ca="ca.pem", **kw):
     from aioquic.quic.configuration import QuicConfiguration
 
+    if EXTRA is not None:
+        kw = {**EXTRA("client"), **kw}
     cfg = QuicConfiguration(is_client=True, **kw)
     cfg.cadata = ca_data(ca)
     cfg.server_name = server_name
